@@ -61,7 +61,7 @@ def finalErrs (S : Scheme) (r : Record) (op : Op S) (pk : S.PK) (oracle : Option
 theorem admissibleErrs_eq (d : DS) (r : Record) (op : Op d.S) (pk : d.S.PK) (oracle : Option Bytes)
     (sc sf : Bool) :
     admissibleErrs d r op pk oracle sc sf =
-      if !(valueErrs op).isEmpty then valueErrs op ++ seqMaxErrs r op ++ faultErrs sf
+      if !(valueErrs op).isEmpty then valueErrs op ++ bypassCauses d.S r op pk ++ seqMaxErrs r op ++ faultErrs sf
       else preErrs d.S r op pk ++ finalErrs d.S r op pk oracle sc ++ seqMaxErrs r op ++
         faultErrs sf := by
   cases op <;> rfl
@@ -86,7 +86,7 @@ theorem mem_admissible_of_valueErrs (d : DS) (r : Record) (op : Op d.S) (pk : d.
     | nil => rw [hv] at h; simp at h
     | cons a t => rfl
   rw [if_pos hne]
-  exact List.mem_append_left _ (List.mem_append_left _ h)
+  exact List.mem_append_left _ (List.mem_append_left _ (List.mem_append_left _ h))
 
 theorem mem_admissible_of_preErrs (d : DS) (r : Record) (op : Op d.S) (pk : d.S.PK)
     (oracle : Option Bytes) (sc sf : Bool) (s : String) (hv : valueErrs op = [])
